@@ -120,7 +120,7 @@ def run(c, chk):
     direct = sorted(set(f.name for f in c.all_funcs() for lf in leafs_ for _ in f.calls(lf)))
     stray = [n_ for n_ in direct if n_ != walker and not any(True for _ in c.func(n_).calls(walker)) and n_ not in leafs_
              and n_ not in ('cfg_getopt_array', 'cfg_init_defaults')
-             and not (n_ in c.unknown_funcs and set(c.owners(n_)) <= ({walker} | set(c.owners(walker))))]
+             and not (n_ in c.unknown_funcs and set(c.owners(n_)) <= ({walker, 'cfg_getopt_array', 'cfg_init_defaults'} | set(c.owners(walker))))]
     if stray:
         leaf_callers = sorted(set(o for n_ in stray for o in c.owners(n_)))
         chk.fail('R11.1', 'leaf-callers:%s' % ','.join(leaf_callers), c.where(c.need('cfg_getopt_leaf')), 'the leaf lookup is called from %s, not only from the resolver' % leaf_callers)
